@@ -18,11 +18,18 @@ META = dict(
                "C13_rollback_restores (every finite sequence of primitives executed from a well-formed state with empty undo stack is undone by rollback: same "
                "elements/ids/endpoints, property sets, aliases, index contents, node count, adjacency up to order, same degree counters and same ids handed out "
                "afterwards; side conditions of the primitives are explicit: a removed/replaced indexed pair is listed in its index, insert_key_value inserts a "
-               "new key, insert_new_alias an unused alias on an alias-less element, capacity <= 2^63). PARTIAL: C13_exec_failure_restores_partial and "
-               "C13_transaction_failure_restores_partial lift this to Queries.exec / Queries.transaction (a failing query, or a failure injected at the end) "
-               "for InsertAliases, RemoveAliases, InsertIndex, RemoveIndex and all read-only queries; for InsertNodes, InsertEdges, InsertValues, Remove, "
-               "RemoveValues the decomposition into primitives needs database invariants (index consistency C11, fresh slots empty C09/C10) not proved here - "
-               "those queries are covered by the differential runs only. REFUTED for the earlier revisions (documented, repaired by fix: commits): "
+               "new key, insert_new_alias an unused alias on an alias-less element, capacity <= 2^63). ALL QUERY KINDS AND WHOLE HISTORIES (for the revision of /repo): C13_primitives_from_Inv + C13_query_decomposes show that every mutating query "
+               "(InsertNodes, InsertEdges, InsertValues, Remove incl. the node cascade, RemoveValues and the four kinds covered before), whatever its outcome, and every prefix of a "
+               "transaction, executed in a state satisfying the joint invariant Inv of C09/C10/C11 (graph wf, aliases one-to-one onto nodes, unique keys, exact indexes), is a sequence "
+               "of the 14 primitives with their side conditions met; C13_exec_failure_restores (a failing query of ANY kind) and C13_transaction_failure_restores (a transaction "
+               "failing at any point, incl. a failure injected after the last query; results = those of the queries run) give, from EVERY state satisfying Inv with an empty undo stack (the C13 well-formedness db_ok follows from Inv: C13_db_ok_from_Inv, theories/WfRepProofs.v), a state that is `restored` (obs_eq + same degree "
+               "counters + same ids handed out next) and again satisfies Inv (HInv = Inv + db_ok + empty undo stack in the history theorems); C13_no_panic (the repaired code never panics, so every query ends "
+               "in commit or rollback), C13_rollback_keeps_wf, C13_Inv_of_sim; C13_history_atomic / C13_history_invariant: at EVERY point of EVERY history of queries and "
+               "transactions from the empty database, failing or not, both invariants hold and every failed item was a no-op observationally (non-vacuity: "
+               "C13_history_nonvacuous, C13_history_states). Two hypotheses that are not in the property text: (a) query_ok - no insert list names a key twice (C09's quantifier); "
+               "(b) capacity <= 2^63 (`bounded`). (a) cannot be dropped: C13_duplicate_keys_refuted (model witness: `insert nodes values [[k:1,k:2]]`, then the transaction "
+               "[remove values k from node 1; fail] is rolled back to [k:2,k:1] - equal for obs_eq, but `search elements where k == 1` returns [1] before and [] after the failed "
+               "transaction). The old C13_exec_failure_restores_partial / C13_transaction_failure_restores_partial (four query kinds) are superseded and kept. REFUTED for the earlier revisions (documented, repaired by fix: commits): "
                "C13_pinned_refuted_replace (rollback stopped at a ReplaceKeyValue command), C13_pinned_refuted_alias_steal (alias stealing recorded no inverse "
                "for the victim), C13_nodes_ids_alias_refuted (found during this proof: insert nodes with ids+aliases re-aliased an existing node without "
                "inverse; fix: 883e1ef), each with the Example that the repaired revision restores the state on the same transaction. "
